@@ -38,7 +38,7 @@ RULE = (
     "contribution exported twice into one folder, single contributions, lists and System.export. Read-back oracle: the .pvd "
     "lists existing files, one per exported frame, time-ordered with the frame times; every exported frame is an instant of "
     "the solution; points / vector arrays of every .vtu equal the geometry recomputed by the harness from the solution at that "
-    "instant. distinct = (session kind, exported contribution classes, fps bucket, overwrite, pre-existing folder, repeated "
+    "instant, right after the export and again after all later exports into the same folder. distinct = (session kind, exported contribution classes, fps bucket, overwrite, pre-existing folder, repeated "
     "export); non-trivial = at least one .vtu compared with >= 2 frames"
 )
 COMPONENTS = {
@@ -308,6 +308,7 @@ def execute(plan, out, log):
                     return
             geo = Geo(B) if B is not None else None
             done = {}
+            written = []  # every collection written so far: re-verified at the end (later exports must not disturb earlier ones)
             for k, op in enumerate(plan["ops"]):
                 what = op["what"]
                 before = {p.name for p in edir.glob("*.pvd")}
@@ -398,8 +399,19 @@ def execute(plan, out, log):
                         out["probes"]["contact_exported"] += 1
                     if any(nm.startswith("frame") and geo.B.frame_motions[int(nm[5:])].moving for nm, _ in contrs):
                         out["probes"]["moving_frame_exported"] += 1
-                if not check_files(out, edir / new[0], "+".join(sorted({type(c).__name__ for _, c in contrs})), frames, fn, sol):
+                label2 = "+".join(sorted({type(c).__name__ for _, c in contrs}))
+                if not check_files(out, edir / new[0], label2, frames, fn, sol):
                     return
+                written.append((edir / new[0], label2, frames, fn))
+            # ---------------- all collections once more, after the last export
+            if len(written) > 1:
+                for pvd, label2, frames, fn in written[:-1]:
+                    n0 = len(out["violations"])
+                    if not check_files(out, pvd, label2 + "/after_later_exports", frames, fn, sol):
+                        for v in out["violations"][n0:]:
+                            v["detail"] = "re-read after later exports into the same folder: " + v["detail"]
+                        return
+                out["probes"]["collections_reverified"] += len(written) - 1
     finally:
         shutil.rmtree(tmp, ignore_errors=True)
     fps_b = "low" if plan["fps"] <= 20 else ("mid" if plan["fps"] <= 200 else "high")
